@@ -25,6 +25,21 @@ SET_ATTRS = {"_connected_ports", "_slices", "_concats", "_related_clk_of", "_rel
 ORDERING = {"sorted", "ordered_ports"}
 
 
+def _set_valued(e):
+    """the expression is syntactically a set: a set display / comprehension, `set(..)` / `frozenset(..)`, or set algebra
+    (`-`, `|`, `&`, `^`) with a `.keys()` / `.items()` view or one of the above on either side -> a short label, or None"""
+    if isinstance(e, (ast.Set, ast.SetComp)):
+        return "set-display"
+    if isinstance(e, ast.Call) and isinstance(e.func, ast.Name) and e.func.id in ("set", "frozenset"):
+        return e.func.id + "()"
+    if isinstance(e, ast.BinOp) and isinstance(e.op, (ast.Sub, ast.BitOr, ast.BitAnd, ast.BitXor)):
+        for side in (e.left, e.right):
+            view = isinstance(side, ast.Call) and isinstance(side.func, ast.Attribute) and side.func.attr in ("keys", "items")
+            if view or _set_valued(side):
+                return "set-algebra"
+    return None
+
+
 def det_audit():
     """-> (obligations, failures): one obligation per loop/comprehension over a set-typed field."""
     from pyvc import loader
@@ -49,9 +64,10 @@ def det_audit():
                     if core.func.id in ORDERING:
                         wrapped = True
                     core = core.args[0]
-                if not (isinstance(core, ast.Attribute) and core.attr in SET_ATTRS):
+                setexpr = _set_valued(core)
+                if not (isinstance(core, ast.Attribute) and core.attr in SET_ATTRS) and not setexpr:
                     continue
-                name = f"det/{os.path.relpath(path, loader.REPO)}:{node.lineno}/{core.attr}"
+                name = f"det/{os.path.relpath(path, loader.REPO)}:{node.lineno}/{setexpr or core.attr}"
                 obligations.append(name)
                 if wrapped:
                     continue
